@@ -66,6 +66,9 @@ class C02(GenCheck):
         e = self.rand_expr(rng, names, case, rng.choice([1, 1, 2, 2, 3]))
         if e[0] == "c":
             e = ["+", ["v", names[0]], e]
+        if rng.random() < 0.08:
+            # a bare decimal constant assigned to the destination (conversion at the assignment only)
+            e = ["c", float(rng.choice(DECIMALS + ["2.7", "3.5", "0.99999", "7.6", "41.50001", "1234.56789", "0.5", "2.5"]))]
         case["expr"] = e
         if rng.random() < 0.3:
             # a comparison mixing integer and fixed-point operands; the constant is placed next to the other side's value
